@@ -305,10 +305,11 @@ def _inside_class(mi, node, clsname: str) -> bool:
 
 # ------------------------------------------------------------------- R5
 def _check_decorator(rep: Report, prog) -> None:
-    """Interpret `invalidate_cache` abstractly: for k = 1..3 cached properties and every
-    subset of them being present in the instance __dict__, the wrapped method must be
-    called exactly once, with the caller's arguments, at a moment when none of the k
-    entries is present any more, and its result must be returned."""
+    """Interpret `invalidate_cache` abstractly: for k = 1..3 cached properties, every
+    subset of them being present in the instance __dict__, a wrapped method that returns
+    or raises, and two successive calls of the same decorated method: the wrapped method
+    is called exactly once per call with the caller's arguments, its result is returned,
+    and when the call is over (normally or not) none of the k entries is left."""
     import itertools
 
     from ..interp import Builtin, FuncV, Interp, Obj, Raised
@@ -334,6 +335,8 @@ def _check_decorator(rep: Report, prog) -> None:
         def call_value(self, it, f, args, kwargs, node):
             if isinstance(f, Recorder):
                 f.calls.append((tuple(args), dict(kwargs), dict(self.inst.attrs["__dict__"])))
+                if getattr(self, "raising", False):
+                    raise Raised("WrappedMethodError", node, it.stack[-1].fi if it.stack else None, "wrapped method fails")
                 return "RESULT"
             return NotImplemented
 
@@ -349,42 +352,61 @@ def _check_decorator(rep: Report, prog) -> None:
     for k in (1, 2, 3):
         names = [f"prop{i}" for i in range(k)]
         for present in itertools.chain.from_iterable(itertools.combinations(names, r) for r in range(k + 1)):
-            n += 1
-            w = DW()
-            it = Interp(prog, w)
-            props = [Obj("functools:cached_property", nm, {"attrname": nm}, kind="cachedprop") for nm in names]
-            inst = Obj("sym_metanet.network:Network", "instance", {}, kind="instance")
-            inst.attrs["__dict__"] = {nm: f"cached-{nm}" for nm in present}
-            inst.attrs["__dict__"]["_graph"] = "graph"
-            w.inst = inst
-            label = f"{k} cached propert{'y' if k == 1 else 'ies'}, present before the call: {list(present) or 'none'}"
-            try:
-                deco = it.call_function(FuncV(fi), props, {})
-                wrapper = it.call(deco, [w.rec], {}, fi.node, None)
-                res = it.call(wrapper, [inst, "a1"], {"kw": "v"}, fi.node, None)
-            except Raised as e:
-                rep.refuted("R5-decorator", label, where,
-                            f"the invalidating wrapper raises {e.exc} ({e.msg})", key=f"R5|raise|{e.exc}")
-                continue
-            calls = w.rec.calls
-            ok = len(calls) == 1
-            why = ""
-            if not ok:
-                why = f"wrapped method called {len(calls)} times"
-            else:
-                a, kw, snap = calls[0]
-                stale = [nm for nm in names if nm in snap]
-                if stale:
-                    ok, why = False, (f"cached entr{'y' if len(stale) == 1 else 'ies'} {stale} still present "
-                                      "when the wrapped method runs")
-                elif a != (inst, "a1") or kw != {"kw": "v"}:
-                    ok, why = False, "arguments are not forwarded unchanged"
-                elif snap.get("_graph") != "graph":
-                    ok, why = False, "unrelated instance state removed"
-                elif res != "RESULT":
-                    ok, why = False, "the wrapped method's result is not returned"
-            rep.check(ok, "R5-decorator", label, where, why,
-                      key=f"R5|k={k}|present={','.join(present) or '-'}")
+            for raising in (False, True):
+                n += 1
+                w = DW()
+                w.raising = raising
+                it = Interp(prog, w)
+                props = [Obj("functools:cached_property", nm, {"attrname": nm}, kind="cachedprop") for nm in names]
+                inst = Obj("sym_metanet.network:Network", "instance", {}, kind="instance")
+                inst.attrs["__dict__"] = {nm: f"cached-{nm}" for nm in present}
+                inst.attrs["__dict__"]["_graph"] = "graph"
+                w.inst = inst
+                label = (f"{k} cached propert{'y' if k == 1 else 'ies'}, present before the call: "
+                         f"{list(present) or 'none'}{', the wrapped method raises' if raising else ''}")
+                try:
+                    deco = it.call_function(FuncV(fi), props, {})
+                    wrapper = it.call(deco, [w.rec], {}, fi.node, None)
+                except Raised as e:
+                    rep.refuted("R5-decorator", label, where,
+                                f"building the invalidating wrapper raises {e.exc} ({e.msg})", key=f"R5|raise|{e.exc}")
+                    continue
+                ok, why = True, ""
+                # the same decorated method is called twice (the decorator's closure state
+                # must not wear out), the cache being re-populated in between
+                for call_no in (1, 2):
+                    if call_no == 2:
+                        inst.attrs["__dict__"].update({nm: f"cached-{nm}" for nm in present})
+                    res, exc = None, None
+                    try:
+                        res = it.call(wrapper, [inst, "a1"], {"kw": "v"}, fi.node, None)
+                    except Raised as e:
+                        exc = e
+                    calls = w.rec.calls
+                    if exc is not None and not (raising and exc.exc == "WrappedMethodError"):
+                        ok, why = False, f"the invalidating wrapper raises {exc.exc} ({exc.msg})"
+                        break
+                    if len(calls) != call_no:
+                        ok, why = False, f"wrapped method called {len(calls)} times after {call_no} call(s)"
+                        break
+                    a, kw, snap = calls[-1]
+                    left = [nm for nm in names if nm in inst.attrs["__dict__"]]
+                    if left:
+                        ok = False
+                        why = (f"call {call_no}: cached entr{'y' if len(left) == 1 else 'ies'} {left} survive the "
+                               f"{'failed ' if raising else ''}call of the mutating method")
+                        break
+                    if a != (inst, "a1") or kw != {"kw": "v"}:
+                        ok, why = False, "arguments are not forwarded unchanged"
+                        break
+                    if inst.attrs["__dict__"].get("_graph") != "graph":
+                        ok, why = False, "unrelated instance state removed"
+                        break
+                    if not raising and res != "RESULT":
+                        ok, why = False, "the wrapped method's result is not returned"
+                        break
+                rep.check(ok, "R5-decorator", label, where, why,
+                          key=f"R5|k={k}|present={','.join(present) or '-'}|raising={raising}")
     rep.floor("decorator scenarios", n, 14)
 
 
